@@ -17,6 +17,8 @@ BASES = {
     "dict-p4": pickle.dumps({"a": 1}, protocol=4),
     "obj-p3": asm(("PROTO", 3), ("GLOBAL", ("collections", "OrderedDict")), "EMPTY_TUPLE", "REDUCE", ("BINPUT", 0), "STOP"),
     "set-p4": pickle.dumps({1}, protocol=4),
+    "sg-p4": pickle.dumps(__import__("collections").OrderedDict(), protocol=4),
+    "strings": asm(sbu("os"), sbu("system"), "POP", "POP", "NONE", "STOP"),
 }
 
 
@@ -30,6 +32,10 @@ def sym(name):
         "REDUCE": lambda: fk.Reduce(),
         "ETUP": lambda: fk.EmptyTuple(),
         "POP": lambda: fk.Pop(),
+        "STACK_GLOBAL": lambda: fk.StackGlobal(),
+        "PROTO": lambda: fk.Proto.create(3),
+        "STR_os": lambda: fk.ShortBinUnicode("os"),
+        "STR_system": lambda: fk.ShortBinUnicode("system"),
     }[name]()
 
 
@@ -37,8 +43,17 @@ SIG6 = ("NONE", "K1", "GLOBAL", "REDUCE", "ETUP", "POP")
 SIG3 = ("NONE", "GLOBAL", "REDUCE")
 
 
-def build_ops(tier):
+def build_ops(tier, full=True):
     ops = []
+    if full:
+        # opcodes that are NoOp subclasses (STACK_GLOBAL is one, although it emits an import) and constants replacing constants
+        for i in (0, 1, 2, -1, "end"):
+            ops.append(("insert", i, "STACK_GLOBAL"))
+        ops += [("insert", 0, "PROTO"), ("insert", 1, "PROTO"), ("append", "STACK_GLOBAL")]
+        for i in (0, 1, 2, 3, 4, -2):
+            for o in ("K1", "STR_os", "STR_system"):
+                ops.append(("set", i, o))
+        ops += [("insert", 0, "STR_os"), ("insert", 1, "STR_system")]
     for i in (0, 1, -1, "end"):
         for o in SIG6:
             ops.append(("insert", i, o))
@@ -184,15 +199,27 @@ class Edits(e2.System):
         cp = None
         if p._properties is not None:
             pr = p._properties
-            cp = digest((tuple(ast.unparse(n) for n in pr.imports), len(pr.calls), len(pr.non_setstate_calls),
-                         tuple(sorted(pr.likely_safe_imports))))
+            try:
+                cp = digest((tuple(e1._canon_ast(n, {}) for n in pr.imports), len(pr.calls), len(pr.non_setstate_calls),
+                             tuple(sorted(map(repr, pr.likely_safe_imports)))))
+            except Exception as e:  # noqa: BLE001
+                cp = ("unhashable-properties", type(e).__name__, len(pr.imports), len(pr.calls))
         return (enc, ca, cp)
 
 
 def _run_root(args):
-    name, tier, depth, root = args
+    name, tier, depth, root = args[:4]
     rep = Report(PROP, tier)
-    ops = build_ops(tier)
+    try:
+        return _run_root_inner(args, rep)
+    except Exception as e:  # noqa: BLE001 - unexpected behaviour of the code under test
+        rep.violate(f"C14|unexpected-exception|{type(e).__name__}", f"base {name} root {root}: {type(e).__name__}: {e}", {"base": name, "root": repr(root)})
+        return name, rep.cov, [(v.astuple()) for lst in rep.violations.values() for v in lst], rep.vcount, rep.samples
+
+
+def _run_root_inner(args, rep):
+    name, tier, depth, root, full = args
+    ops = build_ops(tier, full)
     system = Edits(BASES[name], ops)
     if root is None:
         e2.explore(system, 1, rep, PROP)
@@ -206,20 +233,24 @@ def _run_root(args):
 def check(tier):
     rep = Report(PROP, tier)
     depth = 4 if tier == "thorough" else 3
-    names = list(BASES) if tier == "thorough" else list(BASES)[:4]
-    ops = build_ops(tier)
-    tasks = [(n, tier, depth, None) for n in names] + [(n, tier, depth, op) for n in names for op in ops]
+    names = list(BASES) if tier == "thorough" else ["list-p2", "call-p0", "none", "dict-p4", "sg-p4", "strings"]
+    full_ops, core_ops = build_ops(tier, True), build_ops(tier, False)
+    # pass 1: the full operation menu one level shallower; pass 2: the core menu to the full depth
+    tasks = [(n, tier, depth - 1, None, True) for n in names] + [(n, tier, depth - 1, op, True) for n in names for op in full_ops]
+    tasks += [(n, tier, depth, op, False) for n in names for op in core_ops]
     with mp.get_context("fork").Pool(ncpu()) as pool:
         for name, cov, viol, vcount, samples in pool.imap_unordered(_run_root, tasks, chunksize=1):
             for k in ("states", "transitions", "traces_validated_against_impl", "evaluations", "distinct_nontrivial"):
                 rep.add(k, cov.get(k, 0))
             rep.add(f"base_{name}_states", cov.get("states", 0))
             rep.merge_violations(viol)
-            for s, c in vcount.items():
-                rep.vcount[s] = max(rep.vcount.get(s, 0), c)
-            for s in samples[:1]:
-                rep.sample({"base": name, **s})
-    rep.set("ops", len(build_ops(tier)))
+            for s_, c in vcount.items():
+                rep.vcount[s_] = max(rep.vcount.get(s_, 0), c)
+            for s_ in samples[:1]:
+                rep.sample({"base": name, **s_})
+    rep.set("ops_full", len(full_ops))
+    rep.set("ops_core", len(core_ops))
+    rep.set("depth_bound_full_menu", depth - 1)
     rep.set("depth_bound", depth)
     rep.set("bases", names)
     rep.set("rule", "BFS over all histories of the edit/read ops to depth_bound from each base pickle; states merged on (opcode encodings, "
